@@ -9,6 +9,7 @@
 #![allow(clippy::type_complexity, clippy::too_many_arguments, clippy::needless_range_loop)]
 
 mod blockprops;
+mod derive;
 mod drip;
 mod duts;
 mod eos;
@@ -87,6 +88,7 @@ fn main() {
         "c13" => hdlcprop::main(&opts),
         "c14" => formats::main(&opts),
         "c16" => sources::main(&opts),
+        "c19" => derive::main(&opts),
         "c12" => blockprops::main(&opts, blockprops::Mode::C12),
         other => {
             eprintln!("unknown subcommand {other}");
